@@ -136,4 +136,234 @@ Proof.
 Qed.
 End Generic.
 
+(* ------------------------------------------------------------------ *)
+(* 3. the transformation matrix of the normalised contracted functions  *)
+(* ------------------------------------------------------------------ *)
+(* W_s^m[a, a'] = n_s[m][a] / dfnorm(a) * D[a', a] * dfnorm(a') / n_s[m][a'] *)
+Definition wrot (R : @mat3 F) (s : shell F) (m a a' : nat) : F :=
+  ncont K s m a / dfnorm K (cmpl (s_l s) a) * rep_mat K R (cmpl (s_l s) a') (cmpl (s_l s) a)
+  * dfnorm K (cmpl (s_l s) a') / ncont K s m a'.
+
+(* if the contraction norm does not depend on the component (true when sqrt is exact on the double factorials),
+   W is the representation matrix conjugated with the primitive component norms only *)
+Lemma wrot_simpl R (s : shell F) m a a' :
+  ncont K s m a' = ncont K s m a -> ncont K s m a' <> 0 ->
+  wrot R s m a a'
+  = dfnorm K (cmpl (s_l s) a') / dfnorm K (cmpl (s_l s) a) * rep_mat K R (cmpl (s_l s) a') (cmpl (s_l s) a).
+Proof.
+  intros E Hn. unfold wrot. rewrite <- E. field. split; [apply Hdf|exact Hn].
+Qed.
+
+(* the basis: Cartesian shells in the default component order, one coefficient row per exponent, at least one
+   segment, exponent sums non-zero *)
+Definition rot_basis_ok (bs : list (shell F)) : Prop :=
+  (forall s, In s bs -> s_sph s = false /\ (0 < nseg s)%nat /\ s_comps s = [] /\ wf_coeffs s)
+  /\ (forall sa sb, In sa bs -> In sb bs -> forall a b, In a (s_exps sa) -> In b (s_exps sb) -> a + b <> 0).
+Definition rot_basis (R : @mat3 F) (bs : list (shell F)) : list (shell F) := map (rot_shell K R) bs.
+
+Section Basis.
+Variable R : @mat3 F.
+Hypothesis HO : orthogonal K R.
+Variable bs : list (shell F).
+Hypothesis OK : rot_basis_ok bs.
+Notation s_ k := (sh_at K bs k).
+Notation bs' := (rot_basis R bs).
+Notation rs_ k := (rot_shell K R (sh_at K bs k)).
+
+Lemma sh_in' k : (k < length bs)%nat -> In (s_ k) bs.
+Proof. intros H. now apply nth_In. Qed.
+
+Lemma sh_at_rot k : (k < length bs)%nat -> sh_at K bs' k = rs_ k.
+Proof.
+  intros Hk. unfold sh_at, rot_basis.
+  rewrite (nth_indep _ (dshell K) (rot_shell K R (dshell K))) by (now rewrite map_length).
+  apply map_nth.
+Qed.
+
+Lemma bdim_rot t : bdim (sh_at K bs' t) = bdim (s_ t).
+Proof.
+  destruct (Nat.lt_ge_cases t (length bs)) as [H|H].
+  - now rewrite sh_at_rot.
+  - unfold sh_at, rot_basis. rewrite !nth_overflow by (rewrite ?map_length; exact H). reflexivity.
+Qed.
+
+Lemma gidx_rot k m c : (k < length bs)%nat -> gidx K bs' k m c = gidx K bs k m c.
+Proof.
+  intros Hk. unfold gidx, boff. rewrite (offs_ext _ (fun t => bdim (s_ t))) by (intros; apply bdim_rot).
+  now rewrite sh_at_rot.
+Qed.
+
+Lemma btotal_rot : btotal K bs' = btotal K bs.
+Proof.
+  unfold btotal, boff, rot_basis. rewrite map_length. apply offs_ext. intros; apply bdim_rot.
+Qed.
+
+Lemma rot_in s' : In s' bs' -> exists s, In s bs /\ s' = rot_shell K R s.
+Proof. unfold rot_basis. rewrite in_map_iff. intros (s & E & H). exists s. now split. Qed.
+
+Lemma rot_cart_basis : cart_basis bs'.
+Proof.
+  intros s' Hs'. destruct (rot_in s' Hs') as (s & Hs & ->). destruct OK as [A _].
+  destruct (A s Hs) as (H1 & H2' & _). split; [exact H1|exact H2'].
+Qed.
+Lemma rot_basis_wf : basis_wf bs'.
+Proof.
+  intros s' Hs'. destruct (rot_in s' Hs') as (s & Hs & ->). destruct OK as [A _].
+  destruct (A s Hs) as (_ & _ & H3 & H4). apply wf_shell_default; [exact H3|exact H4].
+Qed.
+Lemma rot_basis_exps : basis_exps K bs' bs'.
+Proof.
+  intros sa' sb' Ha' Hb'. destruct (rot_in sa' Ha') as (sa & Ha & ->). destruct (rot_in sb' Hb') as (sb & Hb & ->).
+  destruct OK as [_ B]. intros a b Hia Hib. unfold psum. exact (B sa sb Ha Hb a b Hia Hib).
+Qed.
+Lemma orig_cart_basis : cart_basis bs.
+Proof. intros s Hs. destruct OK as [A _]. destruct (A s Hs) as (H1 & H2' & _). now split. Qed.
+Lemma orig_basis_wf : basis_wf bs.
+Proof.
+  intros s Hs. destruct OK as [A _]. destruct (A s Hs) as (_ & _ & H3 & H4). now apply wf_shell_default.
+Qed.
+Lemma orig_basis_exps : basis_exps K bs bs.
+Proof. intros sa sb Ha Hb. destruct OK as [_ B]. intros a b Hia Hib. unfold psum. exact (B sa sb Ha Hb a b Hia Hib). Qed.
+
+Lemma comps_default k : (k < length bs)%nat -> comps_of (s_ k) = default_comps (s_l (s_ k)).
+Proof.
+  intros Hk. destruct OK as [A _]. destruct (A (s_ k) (sh_in' k Hk)) as (_ & _ & H3 & _).
+  unfold comps_of. now rewrite H3.
+Qed.
+Lemma ncomp_default k : (k < length bs)%nat -> AssembledP.ncomp (s_ k) = ncd (s_l (s_ k)).
+Proof. intros Hk. unfold AssembledP.ncomp, ncd. now rewrite comps_default. Qed.
+Lemma self_exps k : (k < length bs)%nat ->
+  forall a b, In a (s_exps (s_ k)) -> In b (s_exps (s_ k)) -> a + b <> 0.
+Proof. intros Hk. destruct OK as [_ B]. apply B; now apply sh_in'. Qed.
+
+(* norm_cont entries are divided by *)
+Definition ncont_nonzero : Prop :=
+  forall k m c, (k < length bs)%nat -> (m < nseg (s_ k))%nat -> (c < ncd (s_l (s_ k)))%nat -> ncont K (s_ k) m c <> 0.
+
+(* ---- any symmetric two-index assembly whose entries are normalised contracted values ---- *)
+Section GenericAsm.
+Variable prim : shell F -> shell F -> comp -> comp -> F -> F -> F.
+Hypothesis prim_matrix : forall R la lb sa sb ja jb alpha beta,
+  orthogonal K R -> psum K alpha beta <> 0 -> In ja (default_comps la) -> In jb (default_comps lb) ->
+  fsum (map (fun ia => fsum (map (fun ib =>
+      rep_mat K R ia ja * rep_mat K R ib jb * prim (rot_shell K R sa) (rot_shell K R sb) ia ib alpha beta)
+    (default_comps lb))) (default_comps la))
+  = prim sa sb ja jb alpha beta.
+Variables S S' : list (list F).
+Hypothesis HS : forall i j m c m' c', (i < length bs)%nat -> (j < length bs)%nat ->
+  (m < nseg (s_ i))%nat -> (c < ncd (s_l (s_ i)))%nat -> (m' < nseg (s_ j))%nat -> (c' < ncd (s_l (s_ j)))%nat ->
+  nth (gidx K bs j m' c') (nth (gidx K bs i m c) S []) 0
+  = ncont K (s_ i) m c * ncont K (s_ j) m' c'
+    * contracted K (s_ i) (s_ j) (cmpl (s_l (s_ i)) c) (cmpl (s_l (s_ j)) c') m m'
+        (prim (s_ i) (s_ j) (cmpl (s_l (s_ i)) c) (cmpl (s_l (s_ j)) c')).
+Hypothesis HS' : forall i j m c m' c', (i < length bs)%nat -> (j < length bs)%nat ->
+  (m < nseg (s_ i))%nat -> (c < ncd (s_l (s_ i)))%nat -> (m' < nseg (s_ j))%nat -> (c' < ncd (s_l (s_ j)))%nat ->
+  nth (gidx K bs j m' c') (nth (gidx K bs i m c) S' []) 0
+  = ncont K (s_ i) m c * ncont K (s_ j) m' c'
+    * contracted K (rs_ i) (rs_ j) (cmpl (s_l (s_ i)) c) (cmpl (s_l (s_ j)) c') m m'
+        (prim (rs_ i) (rs_ j) (cmpl (s_l (s_ i)) c) (cmpl (s_l (s_ j)) c')).
+
+Lemma two_index_rotation_law_generic : ncont_nonzero ->
+  forall i j m a m' b, (i < length bs)%nat -> (j < length bs)%nat ->
+  (m < nseg (s_ i))%nat -> (a < ncd (s_l (s_ i)))%nat -> (m' < nseg (s_ j))%nat -> (b < ncd (s_l (s_ j)))%nat ->
+  fsum (mk (ncd (s_l (s_ i))) (fun a' => fsum (mk (ncd (s_l (s_ j))) (fun b' =>
+    wrot R (s_ i) m a a' * wrot R (s_ j) m' b b'
+    * nth (gidx K bs j m' b') (nth (gidx K bs i m a') S' []) 0))))
+  = nth (gidx K bs j m' b) (nth (gidx K bs i m a) S []) 0.
+Proof.
+  intros Hn i j m a m' b Hi Hj Hm Ha Hm' Hb.
+  set (li := s_l (s_ i)). set (lj := s_l (s_ j)).
+  pose proof (contracted_rotation_law prim prim_matrix R (s_ i) (s_ j) m m' a b HO
+                (proj2 OK (s_ i) (s_ j) (sh_in' i Hi) (sh_in' j Hj)) Ha Hb) as L.
+  cbv zeta in L. fold li lj in L.
+  rewrite (HS i j m a m' b) by assumption. fold li lj.
+  transitivity ((ncont K (s_ i) m a / dfnorm K (cmpl li a)) * (ncont K (s_ j) m' b / dfnorm K (cmpl lj b))
+    * (dfnorm K (cmpl li a) * dfnorm K (cmpl lj b)
+       * contracted K (s_ i) (s_ j) (cmpl li a) (cmpl lj b) m m' (prim (s_ i) (s_ j) (cmpl li a) (cmpl lj b))));
+    [|field; split; apply Hdf].
+  rewrite L. rewrite (fsum_mk_scale_l K Kf). apply fsum_mk_ext. intros a' Ha'.
+  rewrite (fsum_mk_scale_l K Kf). apply fsum_mk_ext. intros b' Hb'.
+  rewrite (HS' i j m a' m' b') by assumption. fold li lj. unfold wrot. fold li lj.
+  pose proof (Hn i m a' Hi Hm Ha') as N1. pose proof (Hn j m' b' Hj Hm' Hb') as N2.
+  field. repeat split; auto.
+Qed.
+End GenericAsm.
+
+(* ---- overlap_integral and kinetic_integral ---- *)
+Hypothesis Hexp : forall x y, fexp K (x + y) = fexp K x * fexp K y.
+
+Lemma entry_rot_generic (Mx : list (shell F) -> list (list F))
+  (prim : shell F -> shell F -> comp -> comp -> F -> F -> F) :
+  (forall b : list (shell F), cart_basis b -> basis_wf b -> basis_exps K b b ->
+     forall i j m c m' c', (i < length b)%nat -> (j < length b)%nat ->
+     (m < nseg (sh_at K b i))%nat -> (c < AssembledP.ncomp (sh_at K b i))%nat ->
+     (m' < nseg (sh_at K b j))%nat -> (c' < AssembledP.ncomp (sh_at K b j))%nat ->
+     let sa := sh_at K b i in let sb := sh_at K b j in
+     let ca := nth c (comps_of sa) (0, 0, 0)%nat in let cb := nth c' (comps_of sb) (0, 0, 0)%nat in
+     nth (gidx K b j m' c') (nth (gidx K b i m c) (Mx b) []) 0
+     = ncont K sa m c * ncont K sb m' c' * contracted K sa sb ca cb m m' (prim sa sb ca cb)) ->
+  (forall i j m c m' c', (i < length bs)%nat -> (j < length bs)%nat ->
+    (m < nseg (s_ i))%nat -> (c < ncd (s_l (s_ i)))%nat -> (m' < nseg (s_ j))%nat -> (c' < ncd (s_l (s_ j)))%nat ->
+    nth (gidx K bs j m' c') (nth (gidx K bs i m c) (Mx bs) []) 0
+    = ncont K (s_ i) m c * ncont K (s_ j) m' c'
+      * contracted K (s_ i) (s_ j) (cmpl (s_l (s_ i)) c) (cmpl (s_l (s_ j)) c') m m'
+          (prim (s_ i) (s_ j) (cmpl (s_l (s_ i)) c) (cmpl (s_l (s_ j)) c')))
+  /\ (forall i j m c m' c', (i < length bs)%nat -> (j < length bs)%nat ->
+    (m < nseg (s_ i))%nat -> (c < ncd (s_l (s_ i)))%nat -> (m' < nseg (s_ j))%nat -> (c' < ncd (s_l (s_ j)))%nat ->
+    nth (gidx K bs j m' c') (nth (gidx K bs i m c) (Mx bs') []) 0
+    = ncont K (s_ i) m c * ncont K (s_ j) m' c'
+      * contracted K (rs_ i) (rs_ j) (cmpl (s_l (s_ i)) c) (cmpl (s_l (s_ j)) c') m m'
+          (prim (rs_ i) (rs_ j) (cmpl (s_l (s_ i)) c) (cmpl (s_l (s_ j)) c'))).
+Proof.
+  intros HE. split; intros i j m c m' c' Hi Hj Hm Hc Hm' Hc'.
+  - pose proof (HE bs orig_cart_basis orig_basis_wf orig_basis_exps i j m c m' c' Hi Hj Hm
+                  ltac:(rewrite ncomp_default by exact Hi; exact Hc) Hm'
+                  ltac:(rewrite ncomp_default by exact Hj; exact Hc')) as E.
+    cbv zeta in E. rewrite (comps_default i Hi), (comps_default j Hj) in E. exact E.
+  - assert (Hi' : (i < length bs')%nat) by (unfold rot_basis; now rewrite map_length).
+    assert (Hj' : (j < length bs')%nat) by (unfold rot_basis; now rewrite map_length).
+    pose proof (HE bs' rot_cart_basis rot_basis_wf rot_basis_exps i j m c m' c' Hi' Hj') as E.
+    cbv zeta in E. rewrite !(sh_at_rot i Hi), !(sh_at_rot j Hj), (gidx_rot i m c Hi), (gidx_rot j m' c' Hj) in E.
+    change (nseg (rs_ i)) with (nseg (s_ i)) in E. change (nseg (rs_ j)) with (nseg (s_ j)) in E.
+    change (AssembledP.ncomp (rs_ i)) with (AssembledP.ncomp (s_ i)) in E.
+    change (AssembledP.ncomp (rs_ j)) with (AssembledP.ncomp (s_ j)) in E.
+    change (comps_of (rs_ i)) with (comps_of (s_ i)) in E. change (comps_of (rs_ j)) with (comps_of (s_ j)) in E.
+    rewrite (ncomp_default i Hi), (ncomp_default j Hj), (comps_default i Hi), (comps_default j Hj) in E.
+    rewrite (ncont_rotation_invariant R (s_ i) m c (self_exps i Hi)),
+            (ncont_rotation_invariant R (s_ j) m' c' (self_exps j Hj)) in E.
+    exact (E Hm Hc Hm' Hc').
+Qed.
+
+Theorem overlap_integral_rotation_law : ncont_nonzero ->
+  forall i j m a m' b, (i < length bs)%nat -> (j < length bs)%nat ->
+  (m < nseg (s_ i))%nat -> (a < ncd (s_l (s_ i)))%nat -> (m' < nseg (s_ j))%nat -> (b < ncd (s_l (s_ j)))%nat ->
+  fsum (mk (ncd (s_l (s_ i))) (fun a' => fsum (mk (ncd (s_l (s_ j))) (fun b' =>
+    wrot R (s_ i) m a a' * wrot R (s_ j) m' b b'
+    * nth (gidx K bs j m' b') (nth (gidx K bs i m a') (overlap_integral K bs' None) []) 0))))
+  = nth (gidx K bs j m' b) (nth (gidx K bs i m a) (overlap_integral K bs None) []) 0.
+Proof.
+  destruct (entry_rot_generic (fun b => overlap_integral K b None) (ovl_prim K)) as [E1 E2].
+  { intros b Cb Wb Eb i j m c m' c' Hi Hj Hm Hc Hm' Hc'.
+    exact (overlap_integral_entry K Kf Hapx H2 b Cb Wb Eb i j m c m' c' Hi Hj Hm Hc Hm' Hc'). }
+  apply (two_index_rotation_law_generic (ovl_prim K)); [|exact E1|exact E2].
+  intros. now apply (overlap_prim_rotation_matrix K Kf Hexp).
+Qed.
+
+Theorem kinetic_integral_rotation_law : ncont_nonzero ->
+  forall i j m a m' b, (i < length bs)%nat -> (j < length bs)%nat ->
+  (m < nseg (s_ i))%nat -> (a < ncd (s_l (s_ i)))%nat -> (m' < nseg (s_ j))%nat -> (b < ncd (s_l (s_ j)))%nat ->
+  fsum (mk (ncd (s_l (s_ i))) (fun a' => fsum (mk (ncd (s_l (s_ j))) (fun b' =>
+    wrot R (s_ i) m a a' * wrot R (s_ j) m' b b'
+    * nth (gidx K bs j m' b') (nth (gidx K bs i m a') (kinetic_integral K bs' None) []) 0))))
+  = nth (gidx K bs j m' b) (nth (gidx K bs i m a) (kinetic_integral K bs None) []) 0.
+Proof.
+  destruct (entry_rot_generic (fun b => kinetic_integral K b None) (kin_prim K)) as [E1 E2].
+  { intros b Cb Wb Eb i j m c m' c' Hi Hj Hm Hc Hm' Hc'.
+    exact (kinetic_integral_entry K Kf Hapx H2 b i j m c m' c' Cb Wb Eb Hi Hj Hm Hc Hm' Hc'). }
+  apply (two_index_rotation_law_generic (kin_prim K)); [|exact E1|exact E2].
+  intros. now apply (kinetic_prim_rotation_matrix K Kf Hexp).
+Qed.
+
+End Basis.
+
 End RotAsm.
